@@ -49,6 +49,7 @@ def strategy(tier):
         st.tuples(st.just('read'), i),
         st.tuples(st.just('observe'), st.booleans()),
         st.tuples(st.just('minimize')),
+        st.tuples(st.just('other'), d, st.integers(0, 2)),
         st.tuples(st.just('foreign'), st.integers(0, 5), d, st.sampled_from(['finish', 'finish', 'abort', 'vote-abort'])),
     ).map(list)
     free = st.lists(op, min_size=3, max_size=n)
@@ -316,6 +317,31 @@ class BlobWorld:
             self.fail_commit(op[1], op[2])
         elif k == 'conflict_commit':
             self.conflict_commit()
+        elif k == 'other':
+            # the second connection writes a blob of its own inside its open transaction, saves it with a savepoint (or
+            # two) and gives the transaction up - now, or at its next boundary: what the first connection's savepoints
+            # hold is not touched by that
+            b = Blob()
+            with b.open('w') as f:
+                f.write(DATA[op[1]])
+            self.c2.root()['other'] = b
+            self.tm2.savepoint()
+            if op[2]:
+                with b.open('a') as f:
+                    f.write(b'+')
+                self.tm2.savepoint()
+            with b.open('r') as f:
+                got = f.read()
+            if got != DATA[op[1]] + (b'+' if op[2] else b''):
+                self.fail('second-connection', 'savepoint-blob-mismatch',
+                          'the second connection reads its own uncommitted blob as %r' % got[:40])
+            if op[2] != 2:
+                self.tm2.abort()
+                self.tm2.begin()
+                self.snap2 = dict(self.committed)
+                self.packed_since = False
+            self.labels.add('second-connection-savepoint')
+            self.check_writer('after the second connection saved a blob of its own')
         elif k == 'savepoint':
             sp = self.tm.savepoint()
             self.sps.append((sp, (dict(self.work), set(self.created), self.node_work)))
